@@ -1164,6 +1164,12 @@ func c17Instances(add func(*Instance), thorough bool) {
 		ad(P("op", 19, "g", 2, "w", w, "anb", 3, "ane", 1, "akeys", 7, "alow", 1, "bnb", 2, "bne", 1, "bkeys", 8, "blow", 1, "cnb", 2, "cne", 1, "ckeys", 9, "clow", 1,
 			"xh", 0, "xb", 0, "xm", 0x3F00000001), 0)
 	}
+	// 17 consecutive buckets ending at 2^32-1 in each of three members (concrete values): chunk bounds that are rounded up past
+	// the last key
+	for _, w := range []int{1, 4} {
+		ad(P("op", 19, "g", 2, "w", w, "anb", 17, "ane", 1, "akeys", 11, "alow", -1, "alowb", 0, "bnb", 17, "bne", 1, "bkeys", 11, "blow", -1, "blowb", 1,
+			"cnb", 17, "cne", 1, "ckeys", 11, "clow", -1, "clowb", 2, "xh", 4294967295, "xb", 0, "xm", 3), 0)
+	}
 	// ... and the third member is mutated afterwards (its buckets must not be shared with the result)
 	for _, w := range []int{1, 2} {
 		ad(P("op", 19, "g", 7, "w", w, "anb", 3, "ane", 1, "akeys", 7, "alow", 1, "bnb", 2, "bne", 1, "bkeys", 8, "blow", 1, "cnb", 2, "cne", 1, "ckeys", 9, "clow", 1,
